@@ -45,8 +45,10 @@ func genC17(t *rapid.T) CaseC17 {
 	c := CaseC17{Doc: g.Elem(t, 3)}
 	var keys []string
 	var shape *shape
+	lil := false
 	if rapid.Bool().Draw(t, "valuemap") {
-		shape = genRootShape(t, rapid.IntRange(0, 2).Draw(t, "lil") == 0)
+		lil = rapid.IntRange(0, 2).Draw(t, "lil") == 0
+		shape = genRootShape(t, lil)
 		c.Value = instantiate(t, shape).(map[string]interface{})
 		keys = shapeKeys
 	} else {
@@ -61,7 +63,7 @@ func genC17(t *rapid.T) CaseC17 {
 			switch o.Kind {
 			case "ValuesForPath", "ValuesForPathSub", "Exists", "Elements", "Attributes", "NewMap":
 				if shape != nil {
-					o.Arg = pathString(genShapePath(t, shape, false))
+					o.Arg = pathString(genShapePath(t, shape, !lil && o.Kind != "NewMap" && rapid.Bool().Draw(t, "indexed")))
 				} else {
 					n := rapid.IntRange(1, 3).Draw(t, "plen")
 					var segs []string
